@@ -14,7 +14,11 @@
     - FALSE in general for the faithful model and the implementation (finding F5, kmpDeduplicate invents an
       edge): [C04_refuted], witness replayed on the real code.
 
-    Clause 3 (coverage away from the boundary) is not addressed here (decided by search only).
+    Clause 3 (coverage away from the boundary) is decided by search only, except for finding F16 (REPAIRED): a hole inside
+    a "cancelled" polygon (outer ring equal to an inner ring: the two halves of a band thinner than a pixel) was attached
+    to that zero-area polygon and the shell around it covered the hole.  After the repair a cancelled polygon takes no
+    hole but its twin ([C04_cancelled_polygon_takes_no_other_hole], all inputs) and the witness comes back with the hole
+    in the shell ([C04_regression_F16]); section at the end of this file.
 
     Vocabulary: see Properties/C01.v.  [segPt a b t] = a + t (b - a); [between c1 c2 lam] = (1 - lam) c1 + lam c2;
     [ChebLe H p q]: |px - qx| <= H and |py - qy| <= H; [halfSpan g L] = half the pixel size of level L;
@@ -248,4 +252,56 @@ Proof.
   split; [vm_compute; tauto |].
   split; [vm_compute; intuition congruence |].
   split; vm_compute; reflexivity.
+Qed.
+
+From Coq Require Import Lia.
+From Texel Require Import Snap.ProofsMatchCancelled.
+
+(** ** finding F16 (repaired): matchInnersToPolygons and cancelled polygons.
+    [ringsAreEqual o t true false = Ok true]: t has the points of o in the opposite direction (any starting point).
+    For EVERY list of polygons and inner rings: a polygon (number k, rings p, outer ring o) whose outer ring is equal
+    to one of the inner rings comes back as p itself or as p followed by exactly one inner ring, and that ring is
+    equal to o.  So no hole that merely lies inside such a zero-area pair is attached to it any more (it goes to a
+    polygon around it, or becomes an outer ring when there is none). *)
+Theorem C04_cancelled_polygon_takes_no_other_hole : forall (polys : list polygon) (ins : list ring) ps (k : nat) p o,
+  matchInnersToPolygons polys ins = Ok ps ->
+  nth_error polys k = Some p -> idx p 0 = Ok o ->
+  (exists t, In t ins /\ ringsAreEqual o t true false = Ok true) ->
+  exists a, nth_error ps k = Some (p ++ a) /\
+    (a = [] \/ exists t, a = [t] /\ In t ins /\ ringsAreEqual o t true false = Ok true).
+Proof. exact cancelled_polygon_takes_no_other_hole. Qed.
+Print Assumptions C04_cancelled_polygon_takes_no_other_hole.
+
+(** the witness of F16 ("case 3": 64 x 64 grid at the origin, requested level 5 = pixels of 2.0, coordinates in 1e-10
+    units, no centre visited more than twice): a square shell, a C-shaped hole whose band is thinner than a pixel
+    (routed, it splits into the island [islandF16] and the equal inner ring [twinF16]) and a square hole inside the
+    island.  The repaired model returns the shell WITH the square hole and the cancelled pair as a polygon of its own,
+    also when the four levels 4..7 are requested at once; the component alone: [cancelledBy] maps polygon 1 to inner
+    ring 0.  (Unrepaired: [[shellF16]; [islandF16; twinF16; holeF16]], the shell covering the hole 1.16 pixels from the
+    boundary.) *)
+Theorem C04_regression_F16 :
+  snapPolygon gF16 pF16 [5%nat] (mkConfig false false false)
+    = Ok [(5%nat, [[shellF16; holeF16]; [islandF16; twinF16]])] /\
+  (exists r, snapPolygon gF16deep pF16 [4; 5; 6; 7]%nat (mkConfig false false false) = Ok r /\
+             In (5%nat, [[shellF16; holeF16]; [islandF16; twinF16]]) r) /\
+  ringsAreEqual islandF16 twinF16 true false = Ok true /\
+  matchInnersToPolygons [[shellF16]; [islandF16]] [twinF16; holeF16] = Ok [[shellF16; holeF16]; [islandF16; twinF16]] /\
+  cancelledBy [[shellF16]; [islandF16]] [twinF16; holeF16] = Ok [(1, 0)].
+Proof. exact F16_regression. Qed.
+Print Assumptions C04_regression_F16.
+
+(** non-vacuity of the general theorem: its hypotheses hold for the island of the witness (polygon 1), whose only
+    hole in the result is its twin; and the hole is a vertex-contained candidate of BOTH polygons (the island is the
+    smaller one: the unrepaired choice) *)
+Example C04_cancelled_polygon_example :
+  matchInnersToPolygons [[shellF16]; [islandF16]] [twinF16; holeF16] = Ok [[shellF16; holeF16]; [islandF16; twinF16]] /\
+  nth_error [[shellF16]; [islandF16]] 1 = Some [islandF16] /\ idx [islandF16] 0 = Ok islandF16 /\
+  (exists t, In t [twinF16; holeF16] /\ ringsAreEqual islandF16 t true false = Ok true) /\
+  ringContains islandF16 (150000000000, 350000000000) = Ok (true, false) /\
+  ringContains shellF16 (150000000000, 350000000000) = Ok (true, false) /\
+  absArea2 islandF16 < absArea2 shellF16.
+Proof.
+  split; [vm_compute; reflexivity |]. split; [reflexivity |]. split; [reflexivity |].
+  split; [exists twinF16; split; [left; reflexivity | vm_compute; reflexivity] |].
+  vm_compute. repeat split; reflexivity.
 Qed.
